@@ -64,7 +64,7 @@ def check_forms(mism, prop, want, label, kind, extra_props=('C10',)):
         if isinstance(got, BV) and isinstance(want, int) and got.v == want:
             # same integer, different representation: that is a canonical-form matter
             if not got.canon:
-                out.append(Problem('C04', what + ' returned a non-canonical representation', 'got=%s' % got.raw))
+                out.append(Problem(props | {'C04'}, what + ' returned a non-canonical representation', 'got=%s' % got.raw))
             continue
         out.append(Problem(props, what + ' disagrees with the ref-ref result', 'got=%r want=%s' % (got, fmt_want(want))))
     return out
